@@ -1421,6 +1421,38 @@ def rule_r16(prog, res):
     res.floor('R16', 'calls on the context\'s out protocol', n, 3)
 
 
+def rule_r17(prog, res):
+    from . import c01
+    from ..report import Result
+    res.share('R17', 'what Soap12 inherits from Soap11 (the fault test of '
+              'deserialize included) names elements through self.ns_soap_env '
+              '(C01-R15)', 'C01', c01.rule_r15, prog, Result)
+    res.rule('R17', 'the plain fault writer puts the fault message into '
+             'faultstring as it is (no markup parsing of the text)')
+    x = prog.cls('spyne.protocol.xml:XmlDocument')
+    f = x.methods.get('fault_to_parent')
+    if f is None:
+        raise AnalysisError('XmlDocument.fault_to_parent', 'not found')
+    n = 0
+    for c in calls_in(f.node):
+        if call_name(c) == 'E' and c.args and isinstance(
+                c.args[0], ast.Constant) and c.args[0].value == 'faultstring':
+            n += 1
+            t = unparse(c.args[1]) if len(c.args) > 1 else ''
+            ok = 'fromstring' not in t and 'html' not in t
+            where = '%s:%d' % (f.module.relpath, c.lineno)
+            res.ob('R17', where, 'fault_to_parent writes faultstring from %s'
+                   % t[:50], 'ok' if ok else 'VIOLATED')
+            if not ok:
+                res.finding('R17', 'XmlDocument.fault_to_parent|message-'
+                            'parsed-as-markup', where, 'the fault message '
+                            'goes through %s before it is written: "expected '
+                            '<int> but got <str>" arrives as "expected ", '
+                            'character references are resolved, leading '
+                            'blanks dropped' % t[:40])
+    res.floor('R17', 'faultstring elements in fault_to_parent', n, 1)
+
+
 def run(prog, res, tier):
     res.run_rule(rule_r8, prog, res)
     res.run_rule(rule_r1, prog, res, tier)
@@ -1437,6 +1469,7 @@ def run(prog, res, tier):
     res.run_rule(rule_r14, prog, res)
     res.run_rule(rule_r15, prog, res)
     res.run_rule(rule_r16, prog, res)
+    res.run_rule(rule_r17, prog, res)
 
 
 _A = 'spyne/application.py'
@@ -1447,6 +1480,11 @@ _H = 'spyne/protocol/dictdoc/hier.py'
 _F = 'spyne/model/fault.py'
 
 MUTANTS = [
+    Mutant('fault-message-through-html-parser', 'R17', 'fire', _X,
+           in_func('XmlDocument.fault_to_parent',
+                   'E("faultstring", inst.faultstring),',
+                   'E("faultstring", html.fromstring(inst.faultstring).text),'),
+           'message-parsed-as-markup'),
     Mutant('serialize-with-app-protocol', 'R16', 'fire',
            'spyne/server/_base.py',
            in_func('ServerBase.get_out_string_pull',
